@@ -33,6 +33,8 @@ func pipe2Rules(c *Ctx) {
 	c.reinlineRule(reach)
 	c.prefixSepRule(reach)
 	c.absJoinRule(reach)
+	c.recordRefreshRule(reach)
+	c.pointerPlanRule(reach)
 	c.sliceBounds(reach)
 	c.selfInline(reach)
 	c.panicBoundary()
@@ -1227,7 +1229,7 @@ func (c *Ctx) isCanonicalRef(fi *core.FuncInfo, ref ast.Expr, site *ast.CallExpr
 	}
 	// (c) the reference already held at this key, with a prefix (the document part) stripped and nothing else:
 	// spec.MustCreateRef(strings.TrimPrefix(<w>.String(), X)) at the key k of `for k, w := range <index of $refs>`
-	if c.isStrippedSameRef(fi, ref, site) {
+	if c.isStrippedSameRef(fi, ref, site) || c.isStrippedCollectedRef(fi, ref, site) {
 		return true, "the $ref already at this key with its document part stripped (its fragment is unchanged: canonical exactly when it was)"
 	}
 	return false, ""
@@ -1294,6 +1296,73 @@ func (c *Ctx) isStrippedSameRef(fi *core.FuncInfo, ref ast.Expr, site *ast.CallE
 	}
 	return core.ObjOf(info, site.Args[1]) != nil && core.ObjOf(info, site.Args[1]) == core.ObjOf(info, rs.Key) &&
 		core.ObjOf(info, recv) != nil && core.ObjOf(info, recv) == core.ObjOf(info, rs.Value)
+}
+
+// isStrippedCollectedRef: the two-pass variant of form (c): a first loop `for k, w := range <refs>` stores
+// M[k] = w.String() (possibly through a local) into a local map, a second loop `for k2, s := range M` rewrites
+// key k2 with spec.MustCreateRef(strings.TrimPrefix(s, X)).
+func (c *Ctx) isStrippedCollectedRef(fi *core.FuncInfo, ref ast.Expr, site *ast.CallExpr) bool {
+	info := c.info(fi)
+	ref = core.Unparen(ref)
+	if o := core.ObjOf(info, ref); o != nil {
+		if defs := c.P.Locals(fi).Defs[o]; len(defs) == 1 && defs[0].Kind == core.DefAssign && defs[0].Expr != nil {
+			ref = core.Unparen(defs[0].Expr)
+		}
+	}
+	mk, ok := ref.(*ast.CallExpr)
+	if !ok || len(mk.Args) != 1 || len(site.Args) < 2 {
+		return false
+	}
+	if cal := c.P.CalleeAny(fi, mk); cal == nil || cal.FullName() != "github.com/go-openapi/spec.MustCreateRef" {
+		return false
+	}
+	// strip TrimPrefix layers down to an identifier
+	e := core.Unparen(mk.Args[0])
+	for i := 0; i < 3; i++ {
+		call, isCall := e.(*ast.CallExpr)
+		if !isCall {
+			break
+		}
+		if cal := c.P.CalleeAny(fi, call); cal == nil || cal.FullName() != "strings.TrimPrefix" || len(call.Args) != 2 {
+			return false
+		}
+		e = core.Unparen(call.Args[0])
+	}
+	sObj := core.ObjOf(info, e)
+	rs, _ := c.parents(fi).Enclosing(site, func(n ast.Node) bool { _, r := n.(*ast.RangeStmt); return r }).(*ast.RangeStmt)
+	if sObj == nil || rs == nil || rs.Key == nil || rs.Value == nil {
+		return false
+	}
+	if core.ObjOf(info, rs.Value) != sObj || core.ObjOf(info, site.Args[1]) == nil || core.ObjOf(info, site.Args[1]) != core.ObjOf(info, rs.Key) {
+		return false
+	}
+	mObj := core.ObjOf(info, rs.X)
+	if mObj == nil || !core.IsMap(mObj.Type()) {
+		return false
+	}
+	// every store into the collecting map is M[k] = <w>.String() under `for k, w := range …`
+	stores := 0
+	good := true
+	ast.Inspect(fi.Decl.Body, func(n ast.Node) bool {
+		as, isAs := n.(*ast.AssignStmt)
+		if !isAs || len(as.Lhs) != 1 || len(as.Rhs) != 1 {
+			return true
+		}
+		ix, isIx := core.Unparen(as.Lhs[0]).(*ast.IndexExpr)
+		if !isIx || core.ObjOf(info, ix.X) != mObj {
+			return true
+		}
+		stores++
+		outer, _ := c.parents(fi).Enclosing(as, func(n ast.Node) bool { _, r := n.(*ast.RangeStmt); return r }).(*ast.RangeStmt)
+		recv, onlyStrip := c.refStringSource(fi, as.Rhs[0])
+		if outer == nil || outer.Key == nil || outer.Value == nil || recv == nil || !onlyStrip ||
+			core.ObjOf(info, ix.Index) == nil || core.ObjOf(info, ix.Index) != core.ObjOf(info, outer.Key) ||
+			core.ObjOf(info, recv) == nil || core.ObjOf(info, recv) != core.ObjOf(info, outer.Value) {
+			good = false
+		}
+		return true
+	})
+	return good && stores > 0
 }
 
 // baseNameRule (C01, REF-BASENAME): a $ref that is rebuilt as '#/definitions/' + path.Base(<an existing $ref>) keeps
